@@ -7,8 +7,8 @@
   params, `{param k}…{/param}` content params and `data="all"` / `data="$e"` (soy.$$augmentMap) — against a CALLEE
   ORACLE: `G name data`, what the generated function `name` returns, related by the hypothesis `CallRel` to the
   `call` of the reference context `R : RefCtx` (registry, entry data, `call` as in Spec/Eval) —, `{msg}` WITHOUT a
-  message bundle and without `{plural}` (the generator then writes the parts one after the other: raw text, HTML
-  tags, print and call placeholders; hypothesis `o.messages = none` of the generator theorems) — the expressions of
+  message bundle (the generator then writes the parts one after the other: raw text, HTML
+  tags, print and call placeholders, and for a `{plural}` a `switch` on its value; hypothesis `o.messages = none` of the generator theorems) — the expressions of
   Props/C04c inside them.
 
   1. `toCmds` translates the commands, in the generator scope they are met in, to the statement AST of
@@ -206,6 +206,34 @@ def phJoin (r1 : Option (JsStmts × Scope)) (rest : Scope → Option (JsStmts ×
     | some r2 => some (r1.1.append r2.1, r2.2)
     | none => none
 
+/-- one `{case n}` of a `{plural}` from the translations of its parts.  The generator opens NO frame for the body of a
+    case: the translation takes only bodies that leave the frames as they found them (print / call placeholders do) -/
+def pcaseJoin (sc : Scope) (v : Int) (rb : Option (JsStmts × Scope)) (rest : Scope → Option (JsPlural × Scope)) :
+    Option (JsPlural × Scope) :=
+  match rb with
+  | none => none
+  | some rb =>
+    if rb.2.stack = sc.stack then
+      (match rest rb.2 with
+        | some rr => some (.cons v rb.1 rr.1, rr.2)
+        | none => none)
+    else none
+
+/-- a `{plural}` part of a message (no bundle): the switch on its value, then the rest of the message -/
+def pluralJoin (sc : Scope) (j : Option JsExpr) (rc : Option (JsPlural × Scope)) (dflt rest : Scope → Option (JsStmts × Scope)) :
+    Option (JsStmts × Scope) :=
+  match j, rc with
+  | some j, some rc =>
+    (match dflt rc.2 with
+      | some rd =>
+        if rd.2.stack = sc.stack then
+          (match rest rd.2 with
+            | some rr => some (.cons (.pluralS j rc.1 rd.1) rr.1, rr.2)
+            | none => none)
+        else none
+      | none => none)
+  | _, _ => none
+
 section
 variable (ae : Autoescape)
 
@@ -254,7 +282,12 @@ mutual
     | _, .nil, sc => some (.nil, sc)
     | buf, .text _ t r, sc => phJoin (some (.one (.appendLit buf t), sc)) (toParts buf r)
     | buf, .ph _ _ body r, sc => phJoin (toPh buf body sc) (toParts buf r)
-    | _, .plural .., _ => none
+    | buf, .plural _ _ value cases _ dflt r, sc =>
+      pluralJoin sc (toAst sc value) (toPCases buf cases sc) (toParts buf dflt) (toParts buf r)
+  /-- the `{case n}` clauses of a plural -/
+  def toPCases : Bytes → PluralCases → Scope → Option (JsPlural × Scope)
+    | _, .nil, sc => some (.nil, sc)
+    | buf, .cons _ v _ body rest, sc => pcaseJoin sc v (toParts buf body sc) (toPCases buf rest)
   def toPh : Bytes → MsgPhBody → Scope → Option (JsStmts × Scope)
     | buf, .htmlTag _ t, sc => some (.one (.appendLit buf t), sc)
     | buf, .cmd c, sc => toCmd buf c sc
@@ -366,6 +399,10 @@ mutual
     | .call b callee base params =>
       [.fixed (spaces ind), .ident b, .fixed b!" += ", (if es6 then .es6name callee else .qname callee), .fixed b!"("] ++
         dataPieces base params ++ [.fixed b!", opt_sb, opt_ijData);", .fixed [10]]
+    | .pluralS e cases dflt =>
+      [.fixed (spaces ind), .fixed b!"switch ("] ++ render e ++ [.fixed b!") {", .fixed [10]] ++ renderPlural es6 (ind + 1) cases ++
+        [.fixed (spaces (ind + 1)), .fixed b!"default:", .fixed [10]] ++ renderStmts es6 (ind + 1 + 1) dflt ++
+        [.fixed (spaces ind), .fixed b!"}", .fixed [10]]
     | .ifPos lim body els =>
       [.fixed (spaces ind), .fixed b!"if (", .ident lim, .fixed b!" > 0) {", .fixed [10]] ++ renderStmts es6 (ind + 1) body ++
         [.fixed (spaces ind), .fixed b!"} else {", .fixed [10]] ++ renderStmts es6 (ind + 1) els ++
@@ -381,6 +418,11 @@ mutual
     | .cons labels body rest =>
       labels.flatMap (fun j => [.fixed (spaces ind), .fixed b!"case "] ++ render j ++ [.fixed b!":", .fixed [10]]) ++
         renderStmts es6 (ind + 1) body ++ [.fixed (spaces (ind + 1)), .fixed b!"break;", .fixed [10]] ++ renderCases es6 ind rest
+  def renderPlural (es6 : Bool) (ind : Nat) : JsPlural → List Piece
+    | .nil => []
+    | .cons v body rest =>
+      [.fixed (spaces ind), .fixed b!"case ", .int v, .fixed b!":", .fixed [10]] ++ renderStmts es6 (ind + 1) body ++
+        [.fixed (spaces (ind + 1)), .fixed b!"break;", .fixed [10]] ++ renderPlural es6 ind rest
   def renderConds (es6 : Bool) (ind : Nat) : JsConds → Bool → List Piece
     | .nil, _ => []
     | .els body, first =>
@@ -1214,6 +1256,85 @@ theorem ph_cmd_runs (c : Cmd) (r : JsStmts × Scope)
 
 end
 
+/-! ### plural (no bundle) -/
+
+theorem pcaseJoin_some {sc : Scope} {v : Int} {rb : Option (JsStmts × Scope)} {rest : Scope → Option (JsPlural × Scope)}
+    {r : JsPlural × Scope} (h : pcaseJoin sc v rb rest = some r) :
+    ∃ rb' rr, rb = some rb' ∧ rb'.2.stack = sc.stack ∧ rest rb'.2 = some rr ∧ r = (.cons v rb'.1 rr.1, rr.2) := by
+  cases rb with
+  | none => simp [pcaseJoin] at h
+  | some rb' =>
+    simp only [pcaseJoin] at h
+    split at h
+    · rename_i hst
+      cases hr : rest rb'.2 with
+      | none => simp [hr] at h
+      | some rr =>
+        simp only [hr, Option.some.injEq] at h
+        exact ⟨rb', rr, rfl, hst, hr, h.symm⟩
+    · cases h
+
+theorem pluralJoin_some {sc : Scope} {j : Option JsExpr} {rc : Option (JsPlural × Scope)}
+    {dflt rest : Scope → Option (JsStmts × Scope)} {r : JsStmts × Scope} (h : pluralJoin sc j rc dflt rest = some r) :
+    ∃ j' rc' rd rr, j = some j' ∧ rc = some rc' ∧ dflt rc'.2 = some rd ∧ rd.2.stack = sc.stack ∧ rest rd.2 = some rr ∧
+      r = (.cons (.pluralS j' rc'.1 rd.1) rr.1, rr.2) := by
+  cases j with
+  | none => simp [pluralJoin] at h
+  | some j' =>
+    cases rc with
+    | none => simp [pluralJoin] at h
+    | some rc' =>
+      simp only [pluralJoin] at h
+      cases hd : dflt rc'.2 with
+      | none => simp [hd] at h
+      | some rd =>
+        simp only [hd] at h
+        split at h
+        · rename_i hst
+          cases hr : rest rd.2 with
+          | none => simp [hr] at h
+          | some rr =>
+            simp only [hr, Option.some.injEq] at h
+            exact ⟨j', rc', rd, rr, rfl, rfl, hd, hst, hr, h.symm⟩
+        · cases h
+
+section
+variable (sk : List Bytes → List Bytes) (o : Options) [GlobalsAre o]
+variable {ind : Nat} {buf : Bytes} {ae : Autoescape} {sc : Scope}
+
+theorem pcases_nil_runs :
+    Runs (At ind buf ae sc) (At ind buf ae sc) (walkPluralCases sk o .nil) (renderPlural (isEs6 o) ind .nil) := by
+  sunfold walkPluralCases
+  exact Runs.pure.cast (by simp [renderPlural])
+
+theorem pcases_cons_runs (p : Nat) (v : Int) (bp : Nat) (body : MsgParts) (rest : PluralCases) (rb : JsStmts × Scope)
+    (rr : JsPlural × Scope)
+    (hb : Runs (At (ind + 1) buf ae sc) (At (ind + 1) buf ae rb.2) (visitMsgNode sk o body) (renderStmts (isEs6 o) (ind + 1) rb.1))
+    (hr : Runs (At ind buf ae rb.2) (At ind buf ae rr.2) (walkPluralCases sk o rest) (renderPlural (isEs6 o) ind rr.1)) :
+    Runs (At ind buf ae sc) (At ind buf ae rr.2) (walkPluralCases sk o (.cons p v bp body rest))
+      (renderPlural (isEs6 o) ind (.cons v rb.1 rr.1)) := by
+  sunfold walkPluralCases
+  exact (Runs.seq Runs.indentP (Runs.seq (Runs.fx _) (Runs.seq (Runs.emit _) (Runs.seq (Runs.fx _) (Runs.seq Runs.nl
+    (Runs.seq Runs.incIndent (Runs.seq hb (Runs.seq Runs.indentP (Runs.seq (Runs.fx _) (Runs.seq Runs.nl
+    (Runs.seq Runs.decIndent hr))))))))))).cast (by simp [renderPlural])
+
+theorem parts_plural_runs (p : Nat) (vn : Bytes) (value : Expr) (cases : PluralCases) (dp : Nat) (dflt r : MsgParts) (j : JsExpr)
+    (rc : JsPlural × Scope) (rd rr : JsStmts × Scope) (hj : toAst sc value = some j)
+    (hc : Runs (At (ind + 1) buf ae sc) (At (ind + 1) buf ae rc.2) (walkPluralCases sk o cases) (renderPlural (isEs6 o) (ind + 1) rc.1))
+    (hd : Runs (At (ind + 1 + 1) buf ae rc.2) (At (ind + 1 + 1) buf ae rd.2) (visitMsgNode sk o dflt)
+      (renderStmts (isEs6 o) (ind + 1 + 1) rd.1))
+    (hr : Runs (At ind buf ae rd.2) (At ind buf ae rr.2) (visitMsgNode sk o r) (renderStmts (isEs6 o) ind rr.1)) :
+    Runs (At ind buf ae sc) (At ind buf ae rr.2) (visitMsgNode sk o (.plural p vn value cases dp dflt r))
+      (renderStmts (isEs6 o) ind (.cons (.pluralS j rc.1 rd.1) rr.1)) := by
+  sunfold visitMsgNode
+  have hv := walkExpr_renders sk o sc value j hj
+  exact (Runs.seq Runs.indentP (Runs.seq (Runs.fx _) (Runs.seq (Runs.expr hv) (Runs.seq (Runs.fx _) (Runs.seq Runs.nl
+    (Runs.seq Runs.incIndent (Runs.seq hc (Runs.seq Runs.indentP (Runs.seq (Runs.fx _) (Runs.seq Runs.nl
+    (Runs.seq Runs.incIndent (Runs.seq hd (Runs.seq Runs.decIndent (Runs.seq Runs.decIndent (Runs.seq Runs.indentP
+    (Runs.seq (Runs.fx _) (Runs.seq Runs.nl hr))))))))))))))))).cast (by simp [renderStmts, renderStmt])
+
+end
+
 /-! ### the recursion -/
 
 section
@@ -1316,7 +1437,22 @@ mutual
       obtain ⟨a, b, ha, hb, rfl⟩ := phJoin_some h
       exact parts_ph_runs sk o p name body rest a b (walkPhBody_renders body buf sc a ha ind)
         (visitMsgNode_renders rest buf a.2 b hb ind)
-    | .plural .., _, _, _, h, _ => by simp [toParts] at h
+    | .plural p vn value cases dp dflt rest, buf, sc, r, h, ind => by
+      unfold toParts at h
+      obtain ⟨j, rc, rd, rr, hj, hrc, hrd, _, hrr, rfl⟩ := pluralJoin_some h
+      exact parts_plural_runs sk o p vn value cases dp dflt rest j rc rd rr hj (walkPluralCases_renders cases buf sc rc hrc (ind + 1))
+        (visitMsgNode_renders dflt buf rc.2 rd hrd (ind + 1 + 1)) (visitMsgNode_renders rest buf rd.2 rr hrr ind)
+  theorem walkPluralCases_renders : ∀ (cs : PluralCases) (buf : Bytes) (sc : Scope) (r : JsPlural × Scope),
+      toPCases ae buf cs sc = some r →
+      ∀ ind, Runs (At ind buf ae sc) (At ind buf ae r.2) (walkPluralCases sk o cs) (renderPlural (isEs6 o) ind r.1)
+    | .nil, buf, sc, r, h, ind => by
+      simp only [toPCases, Option.some.injEq] at h; subst h
+      exact pcases_nil_runs sk o
+    | .cons p v bp body rest, buf, sc, r, h, ind => by
+      unfold toPCases at h
+      obtain ⟨rb, rr, hrb, _, hrr, rfl⟩ := pcaseJoin_some h
+      exact pcases_cons_runs sk o p v bp body rest rb rr (visitMsgNode_renders body buf sc rb hrb (ind + 1))
+        (walkPluralCases_renders rest buf rb.2 rr hrr ind)
   theorem walkPhBody_renders : ∀ (b : MsgPhBody) (buf : Bytes) (sc : Scope) (r : JsStmts × Scope), toPh ae buf b sc = some r →
       ∀ ind, Runs (At ind buf ae sc) (At ind buf ae r.2) (walkPhBody sk o b) (renderStmts (isEs6 o) ind r.1)
     | .htmlTag p t, buf, sc, r, h, ind => by
@@ -1509,7 +1645,18 @@ mutual
     | .text _ t rest, env => (refParts rest env).bind fun r => .val (t ++ r.1, r.2)
     | .ph _ _ body rest, env =>
       (refPh body env).bind fun r1 => (refParts rest r1.2).bind fun r2 => .val (r1.1 ++ r2.1, r2.2)
-    | .plural .., _ => .unspec
+    | .plural _ _ value cases _ dflt rest, env =>
+      -- Spec/Eval.renderParts: the first `{case n}` with the value, else `{default}`
+      (Spec.Eval.eval env value).bind fun v =>
+        match v with
+        | .int i =>
+          (match refPlural cases i env with
+            | some r => r
+            | none => refParts dflt env).bind fun r1 => (refParts rest r1.2).bind fun r2 => .val (r1.1 ++ r2.1, r2.2)
+        | _ => .error
+  def refPlural : PluralCases → Int → SEnv → Option Spec.Eval.ROut
+    | .nil, _, _ => none
+    | .cons _ v _ body rest, i, env => if i == v then some (refParts body env) else refPlural rest i env
   def refPh : MsgPhBody → SEnv → Spec.Eval.ROut
     | .htmlTag _ t, env => .val (t, env)
     | .cmd c, env => refCmd c env
@@ -1975,7 +2122,24 @@ mutual
       obtain ⟨a1, a2, a3⟩ := toPh_scope body buf sc a ha hs
       obtain ⟨b1, b2, b3⟩ := toParts_scope rest buf a.2 b hb a1
       exact ⟨b1, b2.trans a2, Nat.le_trans a3 b3⟩
-    | .plural .., _, _, _, h, _ => by simp [toParts] at h
+    | .plural p vn value cases dp dflt rest, buf, sc, r, h, hs => by
+      unfold toParts at h
+      obtain ⟨j, rc, rd, rr, _, hrc, hrd, hst, hrr, rfl⟩ := pluralJoin_some h
+      obtain ⟨c1, c2, c3⟩ := toPCases_scope cases buf sc rc hrc hs
+      obtain ⟨d1, _, d3⟩ := toParts_scope dflt buf rc.2 rd hrd c1
+      obtain ⟨e1, e2, e3⟩ := toParts_scope rest buf rd.2 rr hrr d1
+      exact ⟨e1, by rw [e2, hst], Nat.le_trans c3 (Nat.le_trans d3 e3)⟩
+  theorem toPCases_scope : ∀ (cs : PluralCases) (buf : Bytes) (sc : Scope) (r : JsPlural × Scope), toPCases ae buf cs sc = some r →
+      ScOk sc → ScOk r.2 ∧ r.2.stack = sc.stack ∧ sc.n ≤ r.2.n
+    | .nil, buf, sc, r, h, hs => by
+      simp only [toPCases, Option.some.injEq] at h; subst h
+      exact ⟨hs, rfl, Nat.le_refl _⟩
+    | .cons p v bp body rest, buf, sc, r, h, hs => by
+      unfold toPCases at h
+      obtain ⟨rb, rr, hrb, hst, hrr, rfl⟩ := pcaseJoin_some h
+      obtain ⟨a1, _, a3⟩ := toParts_scope body buf sc rb hrb hs
+      obtain ⟨b1, b2, b3⟩ := toPCases_scope rest buf rb.2 rr hrr a1
+      exact ⟨b1, b2.trans hst, Nat.le_trans a3 b3⟩
   theorem toPh_scope : ∀ (b : MsgPhBody) (buf : Bytes) (sc : Scope) (r : JsStmts × Scope), toPh ae buf b sc = some r → ScOk sc →
       ScOk r.2 ∧ r.2.stack.tail = sc.stack.tail ∧ sc.n ≤ r.2.n
     | .htmlTag p t, buf, sc, r, h, hs => by
@@ -3735,6 +3899,103 @@ theorem parts_text_ok (p : Nat) (t : Bytes) (rest : MsgParts) (ih2 : PartsOk F G
   simp only [refParts, refPh, Spec.Eval.Out.bind] at ht ⊢
   exact ht
 
+/-- the `{case n}` clauses of a plural: JavaScript matches no label exactly when the reference matches no case; the
+    clause JavaScript runs is the case the reference renders -/
+def PCasesOk (cs : PluralCases) : Prop :=
+  ∀ (fuel : Nat) (sc : Scope) (r : JsPlural × Scope) (env : SEnv) (jenv : JEnv) (out : Bytes) (i : Int),
+    toPCases ae buf cs sc = some r → ScOk sc → GoodBuf sc buf → EnvRel R.entry sc env jenv → BufIs buf jenv out →
+    (execPlural F G fuel r.1 i jenv = none → refPlural F R ae cs i env = none) ∧
+    (∀ jenv', execPlural F G fuel r.1 i jenv = some (.ok jenv') →
+      ∃ text env', refPlural F R ae cs i env = some (.val (text, env')) ∧ EnvRel R.entry r.2 env' jenv' ∧
+        BufIs buf jenv' (out ++ text) ∧ Keeps buf sc.n jenv jenv')
+
+theorem pcases_nil_ok : PCasesOk F G R ae buf .nil := by
+  intro fuel sc r env jenv out i h hs hg hrel hb
+  simp only [toPCases, Option.some.injEq] at h; subst h
+  exact ⟨fun _ => by simp [refPlural], fun jenv' hx => by simp [execPlural] at hx⟩
+
+theorem pcases_cons_ok (p : Nat) (v : Int) (bp : Nat) (body : MsgParts) (rest : PluralCases) (ih1 : PartsOk F G R ae buf body)
+    (ih2 : PCasesOk F G R ae buf rest) : PCasesOk F G R ae buf (.cons p v bp body rest) := by
+  intro fuel sc r env jenv out i h hs hg hrel hb
+  unfold toPCases at h
+  obtain ⟨rb, rr, hrb, hst, hrr, rfl⟩ := pcaseJoin_some h
+  obtain ⟨a1, _, a3⟩ := toParts_scope ae body buf sc rb hrb hs
+  obtain ⟨b1, b2, b3⟩ := toPCases_scope ae rest buf rb.2 rr hrr a1
+  have hg1 : GoodBuf rb.2 buf := goodBuf_of_stack hg hst a3
+  have hrel1 : EnvRel R.entry rb.2 env jenv := envRel_stack hrel hst
+  obtain ⟨t1, t2⟩ := ih2 fuel rb.2 rr env jenv out i hrr a1 hg1 hrel1 hb
+  simp only [execPlural, refPlural]
+  by_cases hex : SoyVerif.Spec.JsSem.exact v = true
+  · simp only [hex, if_true]
+    by_cases hiv : (i == v) = true
+    · simp only [hiv, if_true]
+      refine ⟨fun hx => by simp at hx, ?_⟩
+      intro jenv' hx
+      simp only [Option.some.injEq] at hx
+      obtain ⟨text, env', ht, hrel', hb', hk⟩ := ih1 fuel sc rb env jenv jenv' out hrb hs hg hrel hb hx
+      exact ⟨text, env', by rw [ht], envRel_stack hrel' (b2), hb', hk⟩
+    · simp only [hiv, Bool.false_eq_true, if_false]
+      refine ⟨t1, ?_⟩
+      intro jenv' hx
+      obtain ⟨text, env', ht, hrel', hb', hk⟩ := t2 jenv' hx
+      exact ⟨text, env', ht, hrel', hb', hk.mono a3⟩
+  · simp only [hex, Bool.false_eq_true, if_false]
+    exact ⟨fun hx => by simp at hx, fun jenv' hx => by simp at hx⟩
+
+theorem toJsV_int {v : Spec.Eval.Val} {i : Int} (h : toJsV v = some (.num i)) : v = .int i := by
+  cases v <;> simp [C04c.toJsV] at h
+  exact congrArg Spec.Eval.Val.int h.2
+
+theorem parts_plural_ok (p : Nat) (vn : Bytes) (value : Expr) (cases : PluralCases) (dp : Nat) (dflt rest : MsgParts)
+    (ihc : PCasesOk F G R ae buf cases) (ihd : PartsOk F G R ae buf dflt) (ihr : PartsOk F G R ae buf rest) :
+    PartsOk F G R ae buf (.plural p vn value cases dp dflt rest) := by
+  intro fuel sc r env jenv jenv' out h hs hg hrel hb hx
+  unfold toParts at h
+  obtain ⟨j, rc, rd, rr, hj, hrc, hrd, hstd, hrr, rfl⟩ := pluralJoin_some h
+  obtain ⟨c1, c2, c3⟩ := toPCases_scope ae cases buf sc rc hrc hs
+  obtain ⟨d1, _, d3⟩ := toParts_scope ae dflt buf rc.2 rd hrd c1
+  have hgc : GoodBuf rc.2 buf := goodBuf_of_stack hg c2 c3
+  have hgd : GoodBuf rd.2 buf := goodBuf_of_stack hg hstd (Nat.le_trans c3 d3)
+  simp only [execStmts] at hx
+  obtain ⟨e1, hx1, hx2⟩ := sres_bind_ok hx
+  simp only [execStmt] at hx1
+  obtain ⟨jv, hjv, hx1⟩ := withVal_ok hx1
+  obtain ⟨vv, hvv, hvj⟩ := C04c.gen_correct_refs_partial sc env jenv hrel value j jv hj hjv
+  cases jv with
+  | num i =>
+    have := toJsV_int hvj
+    subst this
+    simp only at hx1
+    obtain ⟨t1, t2⟩ := ihc fuel sc rc env jenv out i hrc hs hg hrel hb
+    -- the clause that ran
+    have hbranch : ∃ text env', (match refPlural F R ae cases i env with
+          | some r => r
+          | none => refParts F R ae dflt env) = .val (text, env') ∧ EnvRel R.entry rd.2 env' e1 ∧ BufIs buf e1 (out ++ text) ∧
+        Keeps buf sc.n jenv e1 := by
+      cases hp : execPlural F G fuel rc.1 i jenv with
+      | some res =>
+        rw [hp] at hx1
+        simp only at hx1
+        subst hx1
+        obtain ⟨text, env', ht, hrel', hb', hk⟩ := t2 e1 hp
+        exact ⟨text, env', by rw [ht], envRel_stack hrel' (hstd.trans c2.symm), hb', hk⟩
+      | none =>
+        rw [hp] at hx1
+        simp only at hx1
+        have hn := t1 hp
+        obtain ⟨text, env', ht, hrel', hb', hk⟩ := ihd fuel rc.2 rd env jenv e1 out hrd c1 hgc (envRel_stack hrel c2) hb hx1
+        exact ⟨text, env', by rw [hn]; exact ht, hrel', hb', hk.mono c3⟩
+    obtain ⟨text1, env1, ht1, hrel1, hb1, hk1⟩ := hbranch
+    obtain ⟨text2, env2, ht2, hrel2, hb2, hk2⟩ := ihr fuel rd.2 rr env1 e1 jenv' (out ++ text1) hrr d1 hgd hrel1 hb1 hx2
+    refine ⟨text1 ++ text2, env2, ?_, hrel2, by rw [← List.append_assoc]; exact hb2, hk1.trans hk2 (Nat.le_trans c3 d3)⟩
+    simp only [refParts, hvv, Spec.Eval.Out.bind, ht1, ht2]
+  | undefined => cases hx1
+  | null => cases hx1
+  | bool _ => cases hx1
+  | str _ => cases hx1
+  | arr _ => cases hx1
+  | obj _ => cases hx1
+
 theorem msg_ok (p id : Nat) (m d : Bytes) (bp : Nat) (body : MsgParts) (ih : PartsOk F G R ae buf body) :
     CmdOk F G R ae buf (.msg p id m d bp body) := by
   intro fuel sc r env jenv jenv' out h hs hg hrel hb hx
@@ -4065,7 +4326,11 @@ mutual
     | .nil, buf => parts_nil_ok F G R ae buf
     | .text p t rest, buf => parts_text_ok F G R ae buf p t rest (parts_ok rest buf)
     | .ph p name body rest, buf => parts_ph_ok F G R ae buf p name body rest (ph_ok body buf) (parts_ok rest buf)
-    | .plural .., _ => fun _ _ _ _ _ _ _ h => by simp [toParts] at h
+    | .plural p vn value cases dp dflt rest, buf =>
+      parts_plural_ok F G R ae buf p vn value cases dp dflt rest (pcases_ok cases buf) (parts_ok dflt buf) (parts_ok rest buf)
+  theorem pcases_ok : ∀ (cs : PluralCases) (buf : Bytes), PCasesOk F G R ae buf cs
+    | .nil, buf => pcases_nil_ok F G R ae buf
+    | .cons p v bp body rest, buf => pcases_cons_ok F G R ae buf p v bp body rest (parts_ok body buf) (pcases_ok rest buf)
   theorem ph_ok : ∀ (b : MsgPhBody) (buf : Bytes), PhOk F G R ae buf b
     | .htmlTag p t, buf => ph_tag_ok F G R ae buf p t
     | .cmd c, buf => ph_cmd_ok F G R ae buf c (cmd_ok c buf)
@@ -4163,7 +4428,10 @@ mutual
     | .nil => true
     | .text _ _ rest => plainParts hb rest
     | .ph _ _ body rest => plainPh hb body && plainParts hb rest
-    | .plural .. => false
+    | .plural _ _ _ cases _ dflt rest => plainPCases hb cases && plainParts hb dflt && plainParts hb rest
+  def plainPCases (hb : Bool) : PluralCases → Bool
+    | .nil => true
+    | .cons _ _ _ body rest => plainParts hb body && plainPCases hb rest
   def plainPh (hb : Bool) : MsgPhBody → Bool
     | .htmlTag .. => true
     | .cmd c => plainCmd hb c
@@ -4439,7 +4707,65 @@ mutual
       simp only [Spec.Eval.Out.bind]
       rw [ref_le_spec_parts rest r1.2 r2 hp.2 h2]
       exact h
-    | .plural .., _, _, hp, _ => by simp [plainParts] at hp
+    | .plural p vn value cases dp dflt rest, env, r, hp, h => by
+      simp only [plainParts, Bool.and_eq_true] at hp
+      rw [Spec.Eval.renderParts]
+      simp only [refParts] at h
+      obtain ⟨v, hv, h⟩ := out_bind_val h
+      rw [hv]
+      simp only [Spec.Eval.Out.bind]
+      cases v <;> simp only [reduceCtorEq] at h
+      rename_i i
+      obtain ⟨r1, h1, h⟩ := out_bind_val h
+      obtain ⟨r2, h2, h⟩ := out_bind_val h
+      have hsp : Spec.Eval.renderPlural reg hasBundle (ae != .off) entry call' none cases
+          (Spec.Eval.renderParts reg hasBundle (ae != .off) entry call' none dflt) i env = .val r1 := by
+        obtain ⟨q1, q2⟩ := ref_le_spec_plural cases i env hp.1.1
+        cases hrp : refPlural F ⟨reg, entry, call⟩ ae cases i env with
+        | some rr =>
+          rw [hrp] at h1
+          simp only at h1
+          subst h1
+          exact q1 r1 hrp _
+        | none =>
+          rw [hrp] at h1
+          simp only at h1
+          rw [q2 hrp]
+          exact ref_le_spec_parts dflt env r1 hp.1.2 h1
+      dsimp only
+      rw [hsp]
+      dsimp only
+      rw [ref_le_spec_parts rest r1.2 r2 hp.2 h2]
+      exact h
+  theorem ref_le_spec_plural : ∀ (cs : PluralCases) (i : Int) (env : SEnv), plainPCases hasBundle cs = true →
+      (∀ r, refPlural F ⟨reg, entry, call⟩ ae cs i env = some (.val r) →
+        ∀ dfltF, Spec.Eval.renderPlural reg hasBundle (ae != .off) entry call' none cs dfltF i env = .val r) ∧
+      (refPlural F ⟨reg, entry, call⟩ ae cs i env = none →
+        ∀ dfltF, Spec.Eval.renderPlural reg hasBundle (ae != .off) entry call' none cs dfltF i env = dfltF env)
+    | .nil, i, env, _ => by
+      refine ⟨fun r h => by simp [refPlural] at h, fun _ dfltF => ?_⟩
+      rw [Spec.Eval.renderPlural]
+    | .cons p v bp body rest, i, env, hp => by
+      simp only [plainPCases, Bool.and_eq_true] at hp
+      obtain ⟨q1, q2⟩ := ref_le_spec_plural rest i env hp.2
+      refine ⟨fun r h dfltF => ?_, fun h dfltF => ?_⟩
+      · rw [Spec.Eval.renderPlural]
+        simp only [refPlural] at h
+        split at h
+        · rename_i hiv
+          simp only [hiv, if_true]
+          simp only [Option.some.injEq] at h
+          exact ref_le_spec_parts body env r hp.1 h
+        · rename_i hiv
+          simp only [hiv, Bool.false_eq_true, if_false]
+          exact q1 r h dfltF
+      · rw [Spec.Eval.renderPlural]
+        simp only [refPlural] at h
+        split at h
+        · cases h
+        · rename_i hiv
+          simp only [hiv, Bool.false_eq_true, if_false]
+          exact q2 h dfltF
   theorem ref_le_spec_ph : ∀ (b : MsgPhBody) (env : SEnv) (r : Bytes × SEnv), plainPh hasBundle b = true →
       refPh F ⟨reg, entry, call⟩ ae b env = .val r →
       Spec.Eval.renderPh reg hasBundle (ae != .off) entry call' none b env = .val r
@@ -4935,6 +5261,35 @@ example : refCmds sampleF noRef .on sampleMsg (sampleEnv 5) = .val b!"Hi <b>5</b
 -- … and Spec/Eval.renderCmds (no bundle) renders the same
 example : Spec.Eval.renderCmds [] false true [] (fun _ _ => .unspec) none sampleMsg (sampleEnv 5) = .val b!"Hi <b>5</b>, 6!" := rfl
 
+/-- `{msg desc="d"}{plural $a}{case 1}one{case 5}five {$a}{default}many{/plural}!{/msg}` -/
+def samplePlural : CmdList :=
+  .cons (.msg 0 7 [] b!"d" 0
+    (.plural 0 b!"A" (.dataRef 0 b!"a" .nil)
+      (.cons 0 1 0 (.text 0 b!"one" .nil) (.cons 0 5 0 (.text 0 b!"five " (.ph 0 b!"A" (.cmd (.print 0 (.dataRef 0 b!"a" .nil) [])) .nil)) .nil))
+      0 (.text 0 b!"many" .nil) (.text 0 b!"!" .nil))) .nil
+
+set_option maxRecDepth 8000 in
+example : (toCmds .off b!"output" samplePlural ⟨[[]], 0⟩).map (fun r => printPieces (renderStmts false 1 r.1)) = some
+    b!"  switch (opt_data.a) {\n    case 1:\n      output += 'one';\n      break;\n    case 5:\n      output += 'five ';\n      output += opt_data.a;\n      break;\n    default:\n      output += 'many';\n  }\n  output += '!';\n" := by
+  decide +kernel
+
+def pluralRun (a : JVal) : Option SRes :=
+  (toCmds .off b!"output" samplePlural ⟨[[]], 0⟩).map fun r =>
+    execStmts sampleF noCall 10 r.1 ⟨[(b!"a", a)], none, [(b!"output", .str [])]⟩
+
+example : (pluralRun (.num 5)).map (fun r => match r with
+    | .ok e => (e.locals.find? (·.1 == b!"output")).map (·.2)
+    | _ => none) = some (some (.str b!"five 5!")) := rfl
+example : (pluralRun (.num 2)).map (fun r => match r with
+    | .ok e => (e.locals.find? (·.1 == b!"output")).map (·.2)
+    | _ => none) = some (some (.str b!"many!")) := rfl
+example : refCmds sampleF noRef .off samplePlural (sampleEnv 5) = .val b!"five 5!" := rfl
+example : refCmds sampleF noRef .off samplePlural (sampleEnv 2) = .val b!"many!" := rfl
+-- a plural over a string: Soy (Tofu, Spec/Eval) stops with an error, JavaScript takes the default clause — the
+-- semantics is SILENT there (`unspec`)
+example : (pluralRun (.str b!"5")).map (fun r => match r with | .unspec => true | _ => false) = some true := rfl
+example : refCmds sampleF noRef .off samplePlural { vars := [(b!"a", .str b!"5")], loops := [], ij := none, globals := [] } = .error := rfl
+
 end Examples
 
 section ExamplesGlobals
@@ -4983,8 +5338,10 @@ end ExamplesGlobals
   are outside the subset), `{let $x}…{/let}` (`var x$n = ''; x$n += …;` — the body is translated with the
   new buffer; `GoodBuf`: the buffer in use is no local the scope hands out and no name still to be
   generated), `{call name}` / `{call name data="all"}` / `{call name data="$e"}` with `{param k: e /}` and
-  `{param k}…{/param}` (see CALLS below), `{msg}` without a bundle and without `{plural}` (`toParts`: its text, HTML-tag
-  and print / call placeholder parts in order, in a frame of their own; against Spec/Eval.renderParts with `hasBundle = false`:
+  `{param k}…{/param}` (see CALLS below), `{msg}` without a bundle (`toParts`: its text, HTML-tag
+  and print / call placeholder parts in order, in a frame of their own; a `{plural}` part is `switch (e) { case n: … break; …
+  default: … }` — Spec/JsStmt `.pluralS`, a NUMBER against the integer labels; over a value that is no number Soy stops with
+  an error while JavaScript takes the default clause: the semantics is `unspec` there, a C04 discrepancy of the backends; against Spec/Eval.renderParts with `hasBundle = false`:
   `plainCmd hasBundle`) — nested at will — with `e` in the expression
   fragment of Props/C04c (literals, arithmetic / comparison / logic, `?:`, `?:`-elvis, variables and
   parameters with `.k` / `[i]` / `?.k` accesses, length / isNonnull / floor / ceiling / round / min /
@@ -5030,7 +5387,7 @@ end ExamplesGlobals
 
   OUTSIDE (no theorem at the command level): `range` with a computed step, `{call}` to a `{deltemplate}` (`{delcall}`),
   the converse against Spec/Eval.render where the JavaScript THROWS (Props/C04f `gen_complete_registry_spec_partial`, hypothesis
-  `hthrow`), `{msg}` with a message bundle (translated parts) or with `{plural}`, `{css}`, `{log}`, `{debugger}`, `$ij` in a function called without injected data, globals that are floats / lists / maps, print directives with
+  `hthrow`), `{msg}` with a message bundle (translated parts), `{css}`, `{log}`, `{debugger}`, `$ij` in a function called without injected data, globals that are floats / lists / maps, print directives with
   non-literal arguments, and
   the file level above the functions (namespace declarations, goog.provide / ES6 imports — covered for SHAPE by C14, not for
   meaning; the functions themselves: Props/C04f). -/
